@@ -109,8 +109,6 @@ type Variant struct {
 	PermSalt  uint64 `json:"perm_salt"`        // changes the order in which finders report deps
 	SchedSeed uint64 `json:"sched_seed"`
 	Shape     string `json:"shape,omitempty"`
-	Tape      []int  `json:"tape,omitempty"`
-	HaveTape  bool   `json:"have_tape,omitempty"`
 }
 
 type Scenario struct {
@@ -128,6 +126,8 @@ type Scenario struct {
 	PipeCap  int         `json:"pipe_cap,omitempty"`
 	Corrupt  []Corruption `json:"corrupt,omitempty"`
 	CloseTask bool       `json:"close_task,omitempty"` // Close is issued by task 0 after its Adds instead of after all tasks
+	Tapes    [][]int     `json:"tapes,omitempty"`     // pinned schedule tapes, one per scheduler in creation order (variants, then ship)
+	HaveTape bool        `json:"have_tape,omitempty"`
 	Manifest *string     `json:"manifest,omitempty"` // synthetic manifest to open (C18/C19), no build
 	Strings  []string    `json:"strings,omitempty"`  // hostile address strings fed to the parsers through a finder (C19)
 }
